@@ -274,6 +274,9 @@ def generate_name(name_context: str, types: TypeData) -> str:
     # If name context has a '_' it is likely a property.
     # Try name generation using just the property name
     parts = [to_upper_camel_case(p) for p in name_context.split("_") if len(p) > 3]
+    if not parts:
+        # Every part is short (`Abc.xyz`): use them all.
+        parts = [to_upper_camel_case(p) for p in name_context.split("_") if p]
 
     # Try the last part of the name context
     name = parts[-1]
